@@ -228,6 +228,10 @@ def call_method(ex: Exec, base: SV, name: str, node: ast.Call) -> SV:
         conds = [ex.type_pred(base.t, a) for a in alts]
         k = ex.choose(len(alts), conds, "udisp")
         nb = ex.retype(base, alts[k])
+        if alts[k].kind in ("real", "int", "bool", "none", "str") and name not in ("format", "join", "startswith", "endswith",
+                                                                                  "lower", "upper", "strip", "split", "replace"):
+            # a number / None / str has no such method: Python raises AttributeError on this alternative
+            raise PyRaise("AttributeError")
         return call_method(ex, nb, name, node)
     r = lib.container_method(ex, base, name, node)
     if r is not None:
@@ -349,6 +353,12 @@ def _construct_in_comprehension(ex: Exec, cls: str, ci, args: list[SV], kwargs: 
             ctx["facts"].append(z3.Select(ex.H("cls"), lid) == TAGS.tag("list"))
             ctx["facts"].append(z3.Select(ex.H("seq"), lid) == t)
             t = S.mk_ref(lid)
+        elif v.ty.kind == "raw" and t is not None and z3.is_expr(t) and t.sort() == S.SETV:
+            # a set display / set(...) as argument: its own allocation site
+            sid = comp_site(ex, ctx)
+            ctx["facts"].append(z3.Select(ex.H("cls"), sid) == TAGS.tag("set"))
+            ctx["facts"].append(z3.Select(ex.H("ddom"), sid) == t)
+            t = S.mk_ref(sid)
         elif v.ty.kind == "raw" or t is None:
             raise Unsupported("constructor argument without a value term in a comprehension")
         ctx["facts"].append(z3.Select(ex.H("fld:" + name), oid) == t)
@@ -513,6 +523,7 @@ def _havoc_and_assume(ex: Exec, c, fi, env, call_heap, known, raising: str | Non
     if allocates and not ex.spec:
         na = ex.fresh("alloc", S.INT)
         ex.assume(na >= ex.alloc)
+        ex.epoch_prev[na.get_id()] = ex.alloc  # allocation pointer before this boundary
         ex.alloc = na
         ex.epochs.append(na)
     if mods:
